@@ -207,8 +207,9 @@ fn separator(rng: &mut Rng) -> (String, &'static str) {
         3 => ("\t".into(), "sp"),
         4 => ("\n".into(), "sp"),
         5 => ("\r\n".into(), "sp"),
-        6 => ("  \n  ".into(), "sp"),
-        7 => ([" // comment \"x\" /* y\n", " // see the café example — 日本語 😀\n", "// é\r\n"][rng.below(3)].into(), "line-comment"),
+        6 => (["  \n  ", "\r", " \r "][rng.below(3)].into(), "sp"),
+        // (a line comment ends at LF, CRLF and at a CR that stands alone)
+        7 => ([" // comment \"x\" /* y\n", " // see the café example — 日本語 😀\n", "// é\r\n", "// mac\r", " // a\r\r\n"][rng.below(5)].into(), "line-comment"),
         8 => (["/* c */", "/** doc **/", "/***/", "/* a **/", "/*****/", "/**/"][rng.below(6)].into(), "block-comment"),
         9 => ("/* a\n * b */ ".into(), "block-comment"),
         10 => ("/* a /* b */ c */".into(), "nested-block-comment"),
